@@ -28,6 +28,16 @@ func register(id string, f CheckFunc) {
 			r.Rule("CAUSE-TRANSPARENT", "no fmt.Errorf in the owned call trees takes an error value: errors.Cause, which every sentinel test uses, sees through github.com/pkg/errors wrappers only", 1)
 			checkCauseTransparent(p, r, "CAUSE-TRANSPARENT")
 		}
+		if ownsRetFields(id) {
+			r.Rule("RETURN-FIELDS", "a small accessor method of this property's structs (reads its receiver, locks, no other calls) answers from the same receiver fields as in the reference tree (retfields.json)", 1)
+			checkRetFields(p, r, "RETURN-FIELDS")
+		}
+		if ownsErrTolerance(id) {
+			r.Rule("SHARED-ELEMENT", "no pointer appended inside a loop of the owned call trees is one object created before the loop and refilled in every iteration", 1)
+			checkNoSharedElementInLoop(p, r, "SHARED-ELEMENT")
+			r.Rule("COPY-INTO-EMPTY", "no copy() in the owned call trees has a destination made with length 0", 1)
+			checkCopyIntoEmpty(p, r, "COPY-INTO-EMPTY")
+		}
 		if ownsLockRelease(id) {
 			r.Rule("LOCK-RELEASE", "no function returns with a mutex of this property's structs that it took itself still held, unless a deferred unlock covers that return", 1)
 			checkLockRelease(p, r, "LOCK-RELEASE")
